@@ -27,6 +27,8 @@ Definition reviewed : list (site * string) := [
    "range over an integer (reflect NumField)");
   (("cli/flags.go", "parseFlags", "range-unknown", "val.NumField()"),
    "range over an integer (reflect NumField)");
+  (("cli/inputs.go", "normalizeYAMLNumbers", "range-map", "v"),
+   "every member of a map the YAML decoder has just allocated for this document (not yet visible to any query) is replaced by a function of its own value only: order-independent (repo fix 823b7fa)");
   (("compiler.go", "compiler.compileArray", "set-index", "v"),
    "v := make([]any, l) is local; it becomes the folded constant (compile time, before any run)");
   (("compiler.go", "compiler.compileFunc", "set-index", "env"),
@@ -157,6 +159,8 @@ Definition reviewed : list (site * string) := [
    "rs := make([]any, len(items)) is fresh; the input is never sorted in place: sortItems sorts a fresh []*sortItem (model: sort_by)");
   (("func.go", "uniqueBy", "append", "rs"),
    "rs := []any{} is fresh (model: unique_by)");
+  (("func.go", "updateArrayIndex", "clear", "v[l:i]"),
+   "v is written only when a.allocated(v): the cleared slots are the ones the in-place growth exposes, inside the backing array the allocator owns (repo fix 73ac0b6) — allocator-level model: C02 (HeapPath clear_cells)");
   (("func.go", "updateArrayIndex", "copy", "w"),
    "w comes from a.makeArray (fresh) — allocator-level model: C02");
   (("func.go", "updateArrayIndex", "set-index", "v"),
@@ -215,6 +219,8 @@ Definition reviewed : list (site * string) := [
    "compiler option table, written before Compile returns");
   (("option.go", "withFunction", "set-index", "c.customFuncs"),
    "compiler option table, written before Compile returns");
+  (("option.go", "withOwnArgs", "call:slices.Clone", "xs"),
+   "a fresh copy of the interpreter's argument buffer is handed to the custom function; xs itself is only read (repo fix 81d0c57)");
   (("query.go", "ConstArray.toValue", "set-index", "v"),
    "fresh value built at compile time");
   (("query.go", "ConstObject.ToValue", "set-index", "v"),
